@@ -24,7 +24,7 @@ PUNCT = [ord(c) for c in '!"#$%&\'()*+,-./:;<=>?@[\\]^_`{|}~']
 ESCAPES = ['\\', '/', '!', '*', '$', '?', '.']
 ROLES4 = ['FIELD', 'COMPONENT', 'SUBCOMPONENT', 'REPETITION']
 LETTERS = {'base': 'HNFSTRE', 'v27': 'HNFSTREL'}
-NMAX = 24 if THOROUGH else 12
+NMAX = 32 if THOROUGH else 16
 FAMILY_VERSION = {'base': '2.5', 'v27': '2.7'}
 
 
@@ -352,13 +352,21 @@ def _counts(text):
     return tuple(text.count(c) for c in '|^&~')
 
 
-def _ob_assign(s: str, where: int) -> bool:
+NX3 = sum(len(XALPH) ** k for k in range(4))
+
+
+def _ob_assign(r: int, where: int) -> bool:
     """
-    pre: len(s) <= 2 and 0 <= where < 3
-    pre: _printable(s)
-    pre: in_part(where)
+    pre: 0 <= r < NX3 and 0 <= where < 3
+    pre: in_part(r)
     post: _
     """
+    r, where = _bs(r, NX3), _bs(where, 3)
+    with concrete():
+        return _assign(_xstr(r), where)
+
+
+def _assign(s, where):
     reset_defaults()
     seg = parse_segment('PID|||1^^^H&I||S^N~T|||M', version='2.5', validation_level=2)
     before = _counts(seg.to_er7())
@@ -419,8 +427,8 @@ SPEC = {
          'bound': 'unmodified v2.5 ST and the real re module, default delimiters: O1-O4 for every string of length <=%d over %r (%d strings)' % (MAXS, ''.join(XALPH), NX)},
         {'name': 'X.v27', 'fn': '_ob_x_v27', 'parts': 16, 'cond_timeout': 2400, 'path_timeout': 60,
          'bound': 'unmodified v2.7 ST and the real re module, default delimiters incl. truncation: the same %d strings' % NX},
-        {'name': 'O6.assign', 'fn': '_ob_assign', 'parts': 3, 'cond_timeout': {'quick': 400, 'thorough': 1500}, 'path_timeout': 60,
-         'bound': 'ST/IS(s) assigned to a subcomponent / component / field of a populated PID, every printable s of length <=2: '
-                  'separator counts of the segment unchanged'},
+        {'name': 'O6.assign', 'fn': '_ob_assign', 'parts': 8, 'cond_timeout': 1500, 'path_timeout': 60,
+         'bound': 'ST/IS(s) assigned to a subcomponent / component / field of a populated PID, every s of length <=3 over the '
+                  'cross-check alphabet (%d strings): separator counts of the segment unchanged' % NX3},
     ],
 }
